@@ -19,6 +19,25 @@ type c12Case struct {
 	S    int       `json:"s,omitempty"`
 	Qs   []float64 `json:"qs,omitempty"`
 	Perm uint64    `json:"perm,omitempty"`
+	// long lists as a recipe (S values; a fraction Frac of them inside interval Bin, the rest uniform), expanded by the harness PRNG
+	Bin  int     `json:"bin,omitempty"`
+	Frac float64 `json:"frac,omitempty"`
+}
+
+func (c c12Case) list() []float64 {
+	if c.Kind != "uniformity" || c.S == 0 {
+		return c.Qs
+	}
+	r := gen.NewRng(c.Perm ^ 0x5bd1e995)
+	qs := make([]float64, c.S)
+	for i := range qs {
+		if r.Float() < c.Frac {
+			qs[i] = (float64(c.Bin) + r.Float()*0.999) / 10
+		} else {
+			qs[i] = r.Float()
+		}
+	}
+	return qs
 }
 
 // tie values: s = 11k^2 with 100 | k(11k-1)... simply all s <= 10^6 where the real
@@ -46,6 +65,7 @@ func checkC12(c c12Case) (Outcome, error) {
 		}
 		return Outcome{NonTrivial: nt, Classes: cls}, nil
 	case "uniformity":
+		c.Qs = c.list()
 		if len(c.Qs) == 0 {
 			return Outcome{Skip: "empty list (s >= 1 required)"}, nil
 		}
@@ -54,12 +74,15 @@ func checkC12(c c12Case) (Outcome, error) {
 		onEdge := false
 		for _, q := range c.Qs {
 			for k := 1; k <= 10; k++ {
-				if q == float64(k)/10 || q == edgeDouble(k) {
+				if q == float64(k)/10 || q == edgeDoubles[k] {
 					onEdge = true
 				}
 			}
 		}
 		cls := []string{"uniformity"}
+		if c.S > 0 {
+			cls = append(cls, "uniformity/long-list")
+		}
 		if onEdge {
 			cls = append(cls, "uniformity/value-on-edge")
 		}
@@ -83,6 +106,13 @@ func checkC12(c c12Case) (Outcome, error) {
 	return Outcome{}, fmt.Errorf("bad kind %q", c.Kind)
 }
 
+var edgeDoubles = func() (e [11]float64) {
+	for k := 1; k <= 10; k++ {
+		e[k] = edgeDouble(k)
+	}
+	return
+}()
+
 func edgeDouble(k int) float64 {
 	var f float64
 	fmt.Sscanf(fmt.Sprintf("0.%d", k), "%g", &f)
@@ -104,6 +134,10 @@ func genC12(t *rapid.T) c12Case {
 			s = rapid.IntRange(1, 1000000).Draw(t, "s")
 		}
 		return c12Case{Kind: "threshold", S: s}
+	}
+	if rapid.IntRange(0, 15).Draw(t, "recipe") == 0 { // long lists (up to 10^6 Q-values), from uniform to everything in one interval
+		return c12Case{Kind: "uniformity", S: uniformInt(t, 2001, rapid.SampledFrom([]int{10000, 100000, 1000000}).Draw(t, "smax"), "s"), Bin: rapid.IntRange(0, 9).Draw(t, "bin"),
+			Frac: rapid.SampledFrom([]float64{0, 0.001, 0.005, 0.02, 0.05, 0.3, 1}).Draw(t, "frac"), Perm: rapid.Uint64().Draw(t, "perm")}
 	}
 	n := rapid.IntRange(1, 60).Draw(t, "len")
 	if rapid.IntRange(0, 5).Draw(t, "long") == 0 {
@@ -174,6 +208,13 @@ func TestC12Sweep(t *testing.T) {
 				q2 := append([]float64{}, qs...)
 				q2[0] = 0.95
 				cases = append(cases, c12Case{Kind: "uniformity", Qs: q2, Perm: uint64(s + 1)})
+			}
+		}
+	}
+	if lo <= 1 {
+		for i, sz := range []int{5149, 20000, 100000, 1000000} {
+			for j, fr := range []float64{0, 0.005, 0.05, 1} {
+				cases = append(cases, c12Case{Kind: "uniformity", S: sz, Bin: (i + 3*j) % 10, Frac: fr, Perm: uint64(10*i + j)})
 			}
 		}
 	}
